@@ -131,18 +131,9 @@ def _r1_reject_helper(run, R1, w):
     return isinstance(e, ast.Call) and dotted(e.func) == "isinstance" and len(e.args) == 2 and \
         text(e.args[0]) == inner and text(e.args[1]) in ("int", "six.integer_types", "(int,)")
   # every test between the inner loop header and the raise is about the id being a negative int
-  from ..guards import facts
   body_ifs = [n for n in cfg.nodes if n.kind == "if" and
               any(s is n.stmt for s in H.stmts_under(loops[1].body))]
-  atoms = []
-  for n in body_ifs:
-    for pol in (True, False):
-      atoms += [(e, pl) for (e, pl) in facts(n.stmt.test, pol)]
-    if isinstance(n.stmt.test, ast.BoolOp):
-      atoms += [(v, True) for v in ast.walk(n.stmt.test)
-                if isinstance(v, (ast.Compare, ast.Call, ast.Name)) and
-                any(v is x for b in ast.walk(n.stmt.test) if isinstance(b, ast.BoolOp)
-                    for x in b.values)]
+  atoms = [(e, True) for n in body_ifs for e in H.test_atoms(n.stmt.test)]
   others = [e for (e, pl) in atoms if not (is_neg(e) or is_nonneg(e) or is_int(e))]
   rid = raises[0].id
   start = H.nodes_of_stmts(cfg, loops[1].body[:1])
